@@ -84,9 +84,16 @@ def fields(**kw):
     FIELDS.update(kw)
 
 
-def class_fields(cls, **kw):
+OWN_MAPS = set()    # (Class, attribute): stored in a heap map of its own although the kind equals the global declaration
+
+
+def class_fields(cls, _own=False, **kw):
+    """_own=True: the class is unrelated to the classes that share the attribute name (e.g. the diff parser's tree builder
+    has a `prefix` like every leaf): its fields get heap maps of their own, so a write to one cannot alias the other"""
     for k, v in kw.items():
         FIELDS[(cls, k)] = v
+        if _own:
+            OWN_MAPS.add((cls, k))
 
 
 def ext_class(name, module, methods):
